@@ -574,6 +574,13 @@ def rule_enc1(ctx: Ctx) -> RuleResult:
             continue
         is_text = (kind == "open" and (mode is None or "b" not in mode)) or mode == "write_text"
         if not is_text:
+            # binary write: the bytes must come from an explicit .encode(<encoding>) of the text
+            rr.instances += 1
+            encs = [c for c in walk_no_nested(f.node) if isinstance(c, ast.Call) and isinstance(c.func, ast.Attribute)
+                    and c.func.attr == "encode" and (c.args or c.keywords)]
+            rr.ob(f.relpath, f.qualname, norm(call)[:80], "bytes written to the output file are the text encoded with an "
+                  "explicit encoding, before the file is opened", DISCHARGED if encs else VIOLATED,
+                  f"`{norm(encs[0])}` produces the bytes" if encs else "binary write without an explicit encode", call.lineno)
             continue
         rr.instances += 1
         has_enc = any(k.arg == "encoding" for k in call.keywords) or (
